@@ -233,7 +233,7 @@ def run_plan(plan: dict) -> RunResult:
     rec = Recorder()
     stopped = []
 
-    def violate(kind, **d):
+    def violate(kind, /, **d):
         if not stopped:
             res.violate(kind, **d)
             stopped.append(1)
